@@ -235,7 +235,7 @@ def run(ctx):
         kind, what, mod, cfg, r = res[:5]
         account(mod, cfg, r, **({"graph": True} if kind == "graph" else {}))
         if kind == "mut":
-            if r.violated is None:
+            if r.ok:
                 raise tlc.TLCError("sensitivity self-test: model defect %r of RepoImpl must be detected by TLC" % what)
         elif not r.ok:
             raise tlc.TLCError("specification DataRepo/%s (%s) does not satisfy its own properties (%s); this is a model failure, "
@@ -268,7 +268,7 @@ def run(ctx):
         total_sched += len(scheds)
         info = {"name": sc["name"], "threads": sc["threads"], "model_states": len(g.nodes), "model_paths_total": total,
                 "replayed": len(scheds), "exhaustive": exhaustive}
-        metas = collect(ctx, exe, "explore", sc, str(20000 if ctx.quick else 500000), "explore", executions, timeout=1500)
+        metas = collect(ctx, exe, "explore", sc, str(6000 if ctx.quick else 500000), "explore", executions, timeout=1500)
         last = metas[-1] if metas else {}
         info.update({"code_interleavings": last.get("explored"), "code_exhaustive": last.get("exhaustive")})
         ctx.extra.setdefault("scenarios", []).append(info)
